@@ -6,6 +6,8 @@
    I <ind> <d> <nF> <nA> <K> <aux> head.. front.. archive..   direct indicator call (C14Ind.v): the model's own
         leastContributors; E/H over Z (integers), C over OCaml floats (carrier of the Section), H only for d = 2;
         N (NSGA3Indicator, C14Nsga3.v) over OCaml floats, after '|' the answer of the plane solver (w.. or none)
+   U <alg> <ind> <d> <mu> <lambda> <useRef> ref.. values..   updatePopulation (C14Loop.gen_update / ss_update) with the coded
+        indicator models; format as in harness/c14_loop.cpp
    X / M / T / L   variation and mating-selection operators (C14Var.v), formats as in harness/c14_var.cpp; draws after '|' *)
 open C14_model
 
@@ -143,6 +145,28 @@ let () =
         let sel = elitist srt (nat_of_int n) (nat_of_int mu) in
         let order = srt (List.init n nat_of_int) in
         Printf.printf "sel=%s out=%s\n" (bools sel) (if mu < n then join snat (take mu order) else "-")
+      | "U" :: alg :: ind :: d :: mu :: lam :: useref :: rest ->
+        let d = int_of_string d and mu = int_of_string mu and lam = int_of_string lam in
+        let ints = List.map int_of_string rest in
+        let refp = List.map z_of_int (take d ints) in
+        let vals = chunks d (drop d ints) in
+        assert (List.length vals = mu + lam);
+        let mk k v = { sp = [z_of_int k]; pen = List.map z_of_int v;
+                       unp = List.map (fun x -> z_of_int (if k < mu then x else x + 100)) v } in
+        let inds = List.mapi mk vals in
+        let parents = take mu inds and offspring = drop mu inds in
+        let lcs f a k = match own_lcs ind d (useref = "1") refp f a k with
+          | Some l -> l | None -> failwith "no model for this indicator" in
+        let res = match alg with
+          | "N2" | "MO" -> gen_update lcs (nat_of_int mu) parents offspring
+          | _ -> ss_update lcs (nat_of_int mu) parents (List.hd offspring) in
+        let tag i = int_of_z (List.hd i.sp) in
+        let order = List.map tag res in
+        let sorted = List.sort compare res |> List.sort (fun a b -> compare (tag a) (tag b)) in
+        Printf.printf "pop=%s order=%s best=%s\n"
+          (String.concat "," (List.map string_of_int (List.sort compare order)))
+          (String.concat "," (List.map string_of_int order))
+          (String.concat ";" (List.map (fun i -> Printf.sprintf "%d:%s" (tag i) (join sz i.unp)) sorted))
       | "P" :: d :: lo :: hi :: alpha :: m :: xs ->
         let d = int_of_string d in
         let lo = z_of_int (int_of_string lo) and hi = z_of_int (int_of_string hi) in
